@@ -106,6 +106,9 @@ class WrapSpec:
     body: str = ""
     attrs: List[str] = field(default_factory=list)
     no_canary: bool = False
+    desugar_try: List[str] = field(default_factory=list)     # rule R10 inside the fragments
+    substs: List[Tuple[str, str]] = field(default_factory=list)
+    lifts: List[Lift] = field(default_factory=list)
 
     @property
     def qual(self) -> str:
@@ -158,10 +161,17 @@ def parse(path: str) -> UnitSpec:
                 src = rest
             elif head == "type":
                 # `type struct NAME [minus Derive ...]`: derives the unit's library replaces by a specified impl (reported as dropped)
+                # ... [with OLD=>NEW ...]: path spellings inside the type body rewritten for the flat unit (reported as substitutions)
+                withs = []
+                if " with " in rest:
+                    rest, _, w = rest.partition(" with ")
+                    for pair in w.split():
+                        a, _, b = pair.partition("=>")
+                        withs.append((a, b))
                 parts = rest.split()
                 k, n = parts[0], parts[1]
                 minus = parts[3:] if len(parts) > 2 and parts[2] == "minus" else []
-                u.order.append(("type", (src, k, n, minus)))
+                u.order.append(("type", (src, k, n, minus, withs)))
             elif head == "const":
                 u.order.append(("const", (src, rest)))
             elif head == "accessors":
@@ -231,6 +241,16 @@ def parse(path: str) -> UnitSpec:
                 cur.attrs.append(rest)
             elif head == "nocanary":
                 cur.no_canary = True
+            elif head == "desugar_try":
+                cur.desugar_try = rest.split()
+            elif head == "subst":
+                a, _, b = rest.partition("=>")
+                cur.substs.append((a.strip(), b.strip()))
+            elif head == "lift":
+                m = re.match(r"^(chain|let)\s+([A-Za-z_][A-Za-z0-9_]*)(?:#(\d+)|\s+(\d+))?\s+(?:with\s+\((.*?)\)\s+)?as\s+(.*)$", rest, re.S)
+                if not m:
+                    raise SpecError(f"{path}:{ln}: bad lift entry")
+                cur.lifts.append(Lift(m.group(1), m.group(2), int(m.group(3) or m.group(4) or 1), m.group(6).strip(), (m.group(5) or "").strip()))
             elif head in ("requires", "ensures"):
                 m = _label_re.match(rest)
                 if not m:
@@ -311,6 +331,17 @@ def parse(path: str) -> UnitSpec:
         elif head == "flatten":
             a, b = rest.split()
             cur.flatten.append((int(a), b))
+        elif head == "contract_from":
+            # copy requires/ensures of the same function from another unit's vspec (where the contract is proved)
+            other = parse(__import__("os").path.join(__import__("os").path.dirname(path), rest.strip() + ".vspec"))
+            src_fn = next((f for f in other.fns if f.header == cur.header and f.name == cur.name), None)
+            if src_fn is None:
+                raise SpecError(f"{path}:{ln}: {cur.qual} has no contract in unit {rest}")
+            cur.requires += src_fn.requires
+            cur.ensures += src_fn.ensures
+            cur.inherent = cur.inherent or src_fn.inherent
+            if not cur.stub:
+                cur.stub = f"contract proved in unit {rest.strip()}"
         elif head == "nested_in":
             cur.nested_in = rest
         elif head == "hoist":
